@@ -211,19 +211,25 @@ class Classes:
 # (ii) built-ins
 
 def list_builtins():
+    """name -> (module, kind, arity): one entry per distinct procedure (the same procedure is exported by several
+    modules, steel/base re-exports nearly everything; two modules may also bind one name to different procedures)"""
     rc, out = C.sh([BIN, "list"], timeout=120)
-    fns = {}
+    rows = []
     for line in out.splitlines():
         f = line.split("\t")
-        if len(f) != 4 or f[2] == "value":
+        if len(f) != 5 or f[2] == "value":
             continue
-        module, name, kind, arity = f
-        # the same procedure is re-exported by steel/base: keep the defining module
-        if name in fns and module == "steel/base":
-            continue
-        if name in fns and fns[name][0] != "steel/base":
-            continue
-        fns[name] = (module, kind, arity)
+        rows.append(f)
+    by_ident = {}
+    for module, name, kind, arity, ident in rows:
+        cur = by_ident.get(ident)
+        # prefer the defining module over the steel/base re-export, and a known arity over an unknown one
+        if cur is None or (cur[0] == "steel/base" and module != "steel/base") or (cur[3] == "?" and arity != "?"):
+            by_ident[ident] = (module, name, kind, arity)
+    fns = {}
+    for module, name, kind, arity in by_ident.values():
+        key = name if name not in fns else "%s@%s" % (name, module)
+        fns[key] = (module, kind, arity, name)
     return fns
 
 
@@ -289,11 +295,11 @@ def run_builtins(ctx, classes, stats):
     quick = ctx.quick()
     jobs = []
     deny_log = {}
-    for name in sorted(fns):
-        module, kind, arity = fns[name]
+    for key in sorted(fns):
+        module, kind, arity, name = fns[key]
         why = denied(module, name)
         if why:
-            deny_log[name] = why
+            deny_log[key] = why
             continue
         if " " in name:
             continue
@@ -657,6 +663,8 @@ def run_texts(ctx, items, fresh_each=False, tag="t", engine_every=40, phases=Tru
                     local[cur]["others"].append(f[2] if len(f) > 2 else "")
                 elif f[0] == "I" and cur is not None:
                     local[cur]["interrupted"] = True
+                elif f[0] == "M" and cur is not None:
+                    local[cur]["ms"] = int(f[2]) if len(f) > 2 and f[2].isdigit() else 0
                 elif f[0] == "K":
                     hooks.append(r[2:])
                 elif f[0] == "H" and cur is not None:
@@ -692,25 +700,109 @@ def run_texts(ctx, items, fresh_each=False, tag="t", engine_every=40, phases=Tru
             todo = todo[pos + 1:]
         return local
 
+    t_a = time.time()
     for local in C.pool_map(worker, list(range(nw)), workers=nw):
         for i, r in local.items():
             results[items[i][0]] = r
+    t_b = time.time()
     if phases:
         # which phase overflows the native stack (parser / expander+compiler / run)
         over = [(k, b) for (k, b) in items if results.get(k, {}).get("death") == "stack-overflow"]
-        for k, b in over[:60]:
-            results[k]["phase"] = overflow_phase(ctx, b)
+        over = over[:64]
+        for (k, b), ph in zip(over, C.pool_map(lambda a: overflow_phase(ctx, a[1][1], a[0]), list(enumerate(over)))):
+            results[k]["phase"] = ph
+    ctx.log("run_texts[%s]: %d texts, evaluation %.1fs, phases %.1fs" % (tag, n, t_b - t_a, time.time() - t_b))
     return results
 
 
-def overflow_phase(ctx, b):
-    out = os.path.join(SCRATCH, "phase.out")
-    rc, tail = spawn("phase", ["T 0 " + b.hex()], out, os.path.join(SCRATCH, "sandbox", "phase"), timeout=120)
+def overflow_phase(ctx, b, slot=0):
+    out = os.path.join(SCRATCH, "phase%d.out" % slot)
+    rc, tail = spawn("phase", ["T 0 " + b.hex()], out, os.path.join(SCRATCH, "sandbox", "phase%d" % slot), timeout=60)
     last = "start"
     for r in read_records(out):
         if r.startswith("PH "):
             last = r.split(" ")[2]
     return {"start": "read", "read": "expand", "expand": "compile", "compile": "run"}.get(last, "?") if "END" not in read_records(out) else "not-reproduced-in-phases"
+
+
+# ------------------------------------------------------------------------------------------------------------------
+# directed histories: evaluations on one engine with expectations about the later ones
+
+HISTORIES = [
+    # (name, [(kind, text, expectation)])   kind T = evaluate, X = evaluate and compare; expectation: ("value", s) |
+    # ("error", substring) | None
+    ("failed-unit-keeps-earlier-definition",
+     [("T", "(define c07-a 1)", None), ("T", "(define c07-a 2) (c07-undefined-fn 1)", ("error", "FreeIdentifier")),
+      ("X", "c07-a", ("value", "1"))]),
+    ("failed-run-keeps-completed-definitions",
+     [("T", "(define c07-b 1) (define c07-c (car 5)) (define c07-d 3)", ("error", "TypeMismatch")),
+      ("X", "c07-b", ("value", "1"))]),
+    ("macro-of-failed-program-is-not-defined",
+     [("T", "(define-syntax c07-foo (syntax-rules () [(_ a) (+ a 1)])) (c07-undefined-thing 1)", ("error", "FreeIdentifier")),
+      ("X", "(c07-foo 1)", ("error", ""))]),
+    ("handler-not-a-closure-twice",
+     [("T", "(define (c07-h x) (list x (call-with-exception-handler list (lambda () (error \"x\")))))", None),
+      ("T", "(list 1 2 3 (c07-h 5))", ("error", "")), ("T", "(list 1 2 3 (c07-h 5))", ("error", "")),
+      ("X", "(+ 1 2)", ("value", "3"))]),
+    ("error-then-same-definitions-again",
+     [("T", "(define (c07-fact n) (if (= n 0) 1 (* n (c07-fact (- n 1)))))", None), ("T", "(c07-fact 'a)", ("error", "")),
+      ("X", "(c07-fact 20)", ("value", "2432902008176640000"))]),
+    ("interrupted-loop-then-continue",
+     [("T", "(define (c07-spin n) (c07-spin (+ n 1))) (c07-spin 0)", ("error", "Interrupted")), ("X", "(+ 40 2)", ("value", "42"))]),
+    ("deep-recursion-error-then-continue",
+     [("T", "(define (c07-deep n) (+ 1 (c07-deep (+ n 1)))) (c07-deep 0)", ("error", "")), ("X", "(+ 40 2)", ("value", "42"))]),
+    ("error-inside-handler-inside-handler",
+     [("T", "(with-handler (lambda (e) (with-handler (lambda (e2) (car e2)) (cdr 7))) (car 1))", ("error", "")),
+      ("X", "(with-handler (lambda (e) 'again) (car 1))", ("value", "again"))]),
+    ("continuation-of-failed-evaluation",
+     [("T", "(define c07-k2 #f) (+ 1 (call/cc (lambda (k) (set! c07-k2 k) 1))) (car 1)", ("error", "")),
+      ("T", "(c07-k2 10)", None), ("X", "(+ 1 1)", ("value", "2"))]),
+]
+
+
+def run_histories(ctx, classes, stats):
+    out = os.path.join(SCRATCH, "hist.out")
+    n_ok = 0
+    for hi, (name, steps) in enumerate(HISTORIES):
+        lines = ["%s %d %s" % (k, i, text.encode().hex()) for i, (k, text, _) in enumerate(steps)]
+        rc, tail = spawn("texts", lines, out, os.path.join(SCRATCH, "sandbox", "hist"), env={"C07_SOFT_MS": "2000", "C07_HARD_MS": "9000"}, timeout=120)
+        got = {}
+        depth = {}
+        for r in read_records(out):
+            f = r.split(" ", 2)
+            if f[0] == "R":
+                got[int(f[1])] = ("res", f[2] if len(f) > 2 else "")
+            elif f[0] == "V":
+                got[int(f[1])] = ("value", bytes.fromhex(f[2] if len(f) > 2 else "").decode("utf-8", "replace"))
+            elif f[0] == "D":
+                depth[int(f[1])] = f[2] if len(f) > 2 else ""
+        script = "\n;;; next evaluation on the same engine\n".join(t for _, t, _ in steps)
+        bad = []
+        if rc != 0:
+            bad.append("the child died: " + death_signature(rc, tail))
+        for i, (k, text, exp) in enumerate(steps):
+            g = got.get(i)
+            if g is None:
+                bad.append("step %d: no answer" % i)
+                break
+            if exp is None:
+                continue
+            if exp[0] == "value":
+                val = g[1].split("\x1f")[-1] if g[0] == "value" else None
+                if val != exp[1]:
+                    bad.append("step %d `%s`: expected the value %s, got %s" % (i, text, exp[1], g))
+            else:
+                if not (g[0] == "res" and g[1].startswith("err") and exp[1] in g[1]):
+                    bad.append("step %d `%s`: expected an error%s, got %s" % (i, text, " mentioning " + exp[1] if exp[1] else "", g))
+        for i, d in depth.items():
+            if d != "0 0":
+                bad.append("step %d: stack depth after the error (frames operands) = %s" % (i, d))
+        if bad:
+            classes.add("history:" + name, script, "; ".join(bad), "histories")
+        else:
+            n_ok += 1
+    stats["histories"] = len(HISTORIES)
+    stats["histories_as_expected"] = n_ok
 
 
 # ------------------------------------------------------------------------------------------------------------------
@@ -1061,6 +1153,8 @@ def run(ctx):
             note = "" if fa else "  [only in a history of evaluations on one engine; replay = the failing text, history lost]"
             classes.add(ck, text, det + note, src)
     stats["probe_mismatch_excused_redefinition"] = excused
+
+    run_histories(ctx, classes, stats)
 
     # (ii) built-ins
     t1 = time.time()
